@@ -195,6 +195,45 @@ func stateCode(e string) int {
 	return -1
 }
 
+// implCode numbers the state implementations
+func implCode(e string) int {
+	e = strings.TrimPrefix(e, "generic.")
+	switch e {
+	case "nil":
+		return 0
+	case "NewGenericSymbolState()", "NewExpressionSymbolState()":
+		return 1
+	case "NewGenericNumberState()":
+		return 2
+	case "NewExpressionNumberState()":
+		return 3
+	case "NewGenericWordState()":
+		return 4
+	case "NewExpressionWordState()":
+		return 5
+	case "NewGenericWhitespaceState()":
+		return 6
+	case "NewGenericQuoteState()":
+		return 7
+	case "NewExpressionQuoteState()":
+		return 8
+	case "NewCsvQuoteState()":
+		return 9
+	case "NewGenericCommentState()":
+		return 10
+	case "NewCCommentState()":
+		return 11
+	case "NewCppCommentState()":
+		return 12
+	case "NewCsvSymbolState()":
+		return 13
+	case "NewCsvWordState()":
+		return 14
+	}
+	fail("unexpected state implementation " + e)
+	return -1
+}
+
 func main() {
 	root := os.Args[1]
 	var sb strings.Builder
@@ -298,6 +337,51 @@ func main() {
 				sb.WriteString(";\n    ")
 			}
 			sb.WriteString(fmt.Sprintf("(%d, %d, %d) (* %s *)", a, b, stateCode(exprString(args[2])), exprString(args[2])))
+		}
+		sb.WriteString("].\n")
+	}
+	// 5b. which implementation fills each state role: c.SetNumberState(NewExpressionNumberState()) ...
+	for _, spec := range []struct{ file, fn, name string }{
+		{"calculator/tokenizers/ExpressionTokenizer.go", "NewExpressionTokenizer", "expr_states"},
+		{"tokenizers/generic/GenericTokenizer.go", "NewGenericTokenizer", "generic_states"},
+		{"mustache/tokenizers/MustacheTokenizer.go", "NewMustacheTokenizer", "mustache_states"},
+		{"csv/CsvTokenizer.go", "NewCsvTokenizer", "csv_states"}} {
+		f := parse(root, spec.file)
+		sb.WriteString(fmt.Sprintf("Definition %s : list (Z * Z) := [", spec.name))
+		first := true
+		for role, method := range []string{"", "SetSymbolState", "SetWhitespaceState", "SetWordState", "SetNumberState", "SetQuoteState", "SetCommentState"} {
+			if role == 0 {
+				continue
+			}
+			calls := callsIn(f, spec.fn, method)
+			if len(calls) != 1 || len(calls[0]) != 1 {
+				fail(spec.fn + ": expected exactly one " + method + " call")
+			}
+			if !first {
+				sb.WriteString("; ")
+			}
+			first = false
+			sb.WriteString(fmt.Sprintf("(%d, %d) (* %s(%s) *)", role, implCode(exprString(calls[0][0])), method, exprString(calls[0][0])))
+		}
+		sb.WriteString("].\n")
+	}
+	// 5c. default option flags set by the constructors (SetSkipWhitespaces(true) ...)
+	for _, spec := range []struct{ file, fn, name string }{
+		{"calculator/tokenizers/ExpressionTokenizer.go", "NewExpressionTokenizer", "expr_default_options"},
+		{"tokenizers/generic/GenericTokenizer.go", "NewGenericTokenizer", "generic_default_options"},
+		{"mustache/tokenizers/MustacheTokenizer.go", "NewMustacheTokenizer", "mustache_default_options"},
+		{"csv/CsvTokenizer.go", "NewCsvTokenizer", "csv_default_options"}} {
+		f := parse(root, spec.file)
+		sb.WriteString(fmt.Sprintf("Definition %s : list (Z * bool) := [", spec.name))
+		first := true
+		for i, method := range []string{"SetSkipUnknown", "SetSkipWhitespaces", "SetSkipComments", "SetSkipEof", "SetMergeWhitespaces", "SetUnifyNumbers", "SetDecodeStrings"} {
+			for _, args := range callsIn(f, spec.fn, method) {
+				if !first {
+					sb.WriteString("; ")
+				}
+				first = false
+				sb.WriteString(fmt.Sprintf("(%d, %s)", i, exprString(args[0])))
+			}
 		}
 		sb.WriteString("].\n")
 	}
